@@ -15,11 +15,13 @@
 (*    - an object is never re-parented into its own sub-tree                   NoCycleGuard        *)
 (*    - detach precedes append when re-parenting                               AppendBeforeDetach  *)
 (*    - unresolvable paths are given up after MaxPasses passes                 NoPassBound         *)
+(*    - packages nest at most MaxDepth deep (the parser and every consumer of                      *)
+(*      the tree recurse once per level: the stack must not grow with the input) NoDepthLimit      *)
 (* The invariant is the judgement the trace monitor applies to the real parser                    *)
 (* (AmlRobust!Checks on the projected link arrays and slices) plus "no read outside the table"    *)
 (* and "done within a number of steps proportional to the input".                                 *)
 EXTENDS AmlRobust, TraceLib
-CONSTANTS MaxLen, MaxByte, MaxPasses, Bug
+CONSTANTS MaxLen, MaxByte, MaxPasses, MaxDepth, Bug
 
 VARIABLES tbl,      \* the table: a byte string, offsets are 0-based (tbl[o + 1])
           off,      \* read offset
@@ -78,6 +80,7 @@ OpenObj(path) ==
   ELSE
   LET newEnd == lenAt + tbl[lenAt + 1] IN
   IF Bug # "NoPkgEndCheck" /\ newEnd > N THEN Stop("error")            \* SetPkgEnd refuses
+  ELSE IF Bug # "NoDepthLimit" /\ Len(scopes) > MaxDepth THEN Stop("error")   \* nested too deep
   ELSE
   LET tgAt == off + 2
       nmAt == IF path THEN off + 3 ELSE off + 2
@@ -160,6 +163,7 @@ ModelEv == [res   |-> IF phase \in {"parse", "reloc"} THEN "ok" ELSE phase, msg 
             pp    |-> 1, ppmsg |-> "", L |-> Links(pool), S |-> slices, TL |-> <<N>>]
 Robust == /\ phase # "fault"
           /\ steps <= StepBound
+          /\ Len(scopes) - 1 <= MaxDepth                  \* recursion depth bounded whatever the input
           /\ FirstFailIn({"C12"}, 0, Checks(ModelEv, {})) = <<>>
 \* keeps the graph finite when a Bug switch lets the parser run on (the first state beyond the
 \* bound is still generated, so that the invariant sees it)
